@@ -90,6 +90,29 @@ def ir_corpus(rng, n_docs):
     return docs
 
 
+class RawValueDoc:
+    """A few fixed bindings whose bodies complete WITHOUT a value on some or every path, bound to properties of every type incl.
+    QVariant (which accepts a value of any type, but not no value): rejected, or - if accepted - judged like any other body."""
+    SOURCE = """import qmluic.QtWidgets
+QWidget {
+    id: root
+    QCheckBox { id: chk }
+    VfWidget { id: a }
+    VfWidget { id: t0; %s }
+}
+"""
+    BODIES = ["vval: { a.doIt() }", "vval: { console.log(1) }", "vval: { if (chk.checked) { a.doIt() } }", "vval: a.doIt()",
+              "vval: { if (chk.checked) return 1; }", "vval: { switch (a.ival) { case 1: return \"x\"; } }", "vval: { let x = a.ival }",
+              "ival: { a.doIt() }", "sval: { if (chk.checked) return \"x\"; a.doIt() }", "bval: { }", "vval: { }", "vval: { return; }"]
+
+    def __init__(self, body):
+        self.source = self.SOURCE % body
+        self.bindings, self.handlers, self.features = [], [], set()
+
+    def drop_rejected(self, diagnostics):
+        return []
+
+
 def run(tier, seed, replay=None):
     v = common.Verdict("C06", tier, seed)
     rng = common.rng_for(seed, "C06", tier)
@@ -99,7 +122,7 @@ def run(tier, seed, replay=None):
     cxxmodel.ensure_model()
 
     # ---------------------------------------------------------------- IR monitor over a large corpus
-    corpus = ir_corpus(rng, n_ir_docs)
+    corpus = ir_corpus(rng, n_ir_docs) + [("value", RawValueDoc(b)) for b in RawValueDoc.BODIES]
     docs = [d for _, d in corpus]
     results, rejected = translate_docs(docs, "c06", want=("observed", "header"))
     n_bodies = n_blocks = n_brcond = 0
